@@ -1,9 +1,11 @@
 package fsprops
 
 import (
+	"bytes"
 	"encoding/json"
 	"fmt"
 	"math/rand/v2"
+	"os"
 	"path/filepath"
 	"sort"
 	"strings"
@@ -13,6 +15,7 @@ import (
 	"verif/core"
 	"verif/engine"
 	"verif/ops"
+	"verif/pdfobs"
 	"verif/simfs"
 )
 
@@ -98,6 +101,20 @@ func repOf(abs string) string {
 			cn = append(cn, c.Subject.CommonName)
 		}
 		return "certs:" + strings.Join(cn, ",")
+	case ".pdf":
+		// cheat sheets carry a creation date and a random ID: compare through pdfcpu's reader
+		b, err := os.ReadFile(abs)
+		if err != nil {
+			return "UNDECODABLE: " + firstLine(err.Error())
+		}
+		if bytes.Equal(b, ops.OldSheetContent) {
+			return "old-sheet"
+		}
+		d, err := pdfobs.Observe(abs, "", "")
+		if err != nil {
+			return "UNDECODABLE: " + firstLine(err.Error())
+		}
+		return "pdf:" + d.Digest()
 	}
 	return ""
 }
@@ -119,8 +136,8 @@ func repsOf(root string, snap simfs.Snap) map[string]string {
 		if e.Type != "file" {
 			continue
 		}
-		if ext := filepath.Ext(k); ext == ".gob" || ext == ".p7c" {
-			if k == "certs/bystander.p7c" {
+		if ext := filepath.Ext(k); ext == ".gob" || ext == ".p7c" || (ext == ".pdf" && strings.HasPrefix(k, "sheets/")) {
+			if k == "certs/bystander.p7c" || k == "sheets/bystander.pdf" {
 				continue
 			}
 			out[k] = repOf(filepath.Join(root, k))
@@ -155,7 +172,7 @@ func naturalCore(err error) string {
 	if err == nil {
 		return ""
 	}
-	for _, frag := range []string{"duplicate PostScript name", "parse tables", "reload user fonts", "load certificates", "duplicate certificate destination"} {
+	for _, frag := range []string{"duplicate PostScript name", "parse tables", "reload user fonts", "load certificates", "duplicate certificate destination", "user font not found", "NoSuchFont"} {
 		if strings.Contains(err.Error(), frag) {
 			return frag
 		}
@@ -191,6 +208,20 @@ func installOracle(ir, ref *installRun, faults []simfs.Fault, rollbackFaulted bo
 	}
 	failed := r.Err != nil || r.Panicked
 	changes := simfs.Changes(r.S0, r.S1)
+	// sub-classification for narrow known findings: the call reports failure although every target
+	// holds the representation the fault-free call publishes (failure of a post-publication step)
+	allPublished := failed && len(r.Env.Targets) > 0
+	for _, t := range r.Env.Targets {
+		if ref.rep1[t] == "" || ir.rep1[t] != ref.rep1[t] || strings.HasPrefix(ir.rep1[t], "UNDECODABLE") {
+			allPublished = false
+		}
+	}
+	pubTail := func(s string) string {
+		if allPublished {
+			return s + ":all-published"
+		}
+		return s
+	}
 	if !failed {
 		// success: every target holds the new complete representation, everything else is untouched
 		for _, t := range r.Env.Targets {
@@ -241,7 +272,7 @@ func installOracle(ir, ref *installRun, faults []simfs.Fault, rollbackFaulted bo
 			if ch.Kind == "new" {
 				class = "leftover"
 			}
-			mk(class, installPathKind(n), fmt.Sprintf("the call failed and its own rollback steps were not faulted, but the directories are not as before: %s", ch.String()))
+			mk(class, pubTail(installPathKind(n)), fmt.Sprintf("the call failed and its own rollback steps were not faulted, but the directories are not as before: %s", ch.String()))
 		}
 		return vs
 	}
@@ -268,7 +299,7 @@ func installOracle(ir, ref *installRun, faults []simfs.Fault, rollbackFaulted bo
 			}
 		}
 		if !found {
-			mk("old-content-lost", "", fmt.Sprintf("a rollback step failed and the previous representation of %s (%q) is neither at the target nor in a backup named by the error.\nstate: %v", t, old, strictDetail))
+			mk("old-content-lost", pubTail(""), fmt.Sprintf("a rollback step failed and the previous representation of %s (%q) is neither at the target nor in a backup named by the error.\nstate: %v", t, old, strictDetail))
 		}
 	}
 	return vs
@@ -283,9 +314,9 @@ func installPathKind(p string) string {
 		return "backup"
 	case strings.Contains(p, ".pdfcpu-") || strings.Contains(p, ".input-") || strings.Contains(p, ".stage-") || strings.HasPrefix(base, "."):
 		return "staging"
-	case p == "fonts" || p == "certs":
+	case p == "fonts" || p == "certs" || p == "sheets":
 		return "targetdir"
-	case strings.HasPrefix(p, "fonts/") || strings.HasPrefix(p, "certs/"):
+	case strings.HasPrefix(p, "fonts/") || strings.HasPrefix(p, "certs/") || strings.HasPrefix(p, "sheets/"):
 		return "target"
 	}
 	return "other"
